@@ -255,4 +255,18 @@ PROPS = {
                  thorough=dict(checks=8000, shards=16, budget_s=3000, shrink="2m")),
         ],
     ),
+    "C15": dict(
+        level="exploration",
+        text="Exploration by generated search over command x connection kind x work type x token: tokens are constructed by hand (valid, expired, wrong audience, wrong key, alg none, HMAC keyed "
+             "with the public key, truncated, tampered ...) and sent with submit/cancel/release/force-release/results over a Unix socket, TCP and a mesh stream to an in-process node; a reference "
+             "decision says whether the command must take effect, and the effect is observed (unit directories, unit state, bytes streamed), not inferred from the reply.",
+        note="Trusted: the hand-made JWT encoder and the reference decision. Correctly signed tokens with another RSA algorithm, without exp, or with a future nbf are unconstrained.",
+        technique="property-based testing (rapid) over a finite product with hand-built tokens and a reference decision procedure; effects observed out of band",
+        assumptions=["remote submissions are judged by the rule 'a token sent to a work type that does not expect one is refused' (the signing rule for remote work is enforced on the executing node)"],
+        parts=[
+            part("signatures", "workprops", "TestC15", "C15",
+                 quick=dict(checks=240, shards=8, budget_s=400),
+                 thorough=dict(checks=6000, shards=16, budget_s=3300, shrink="2m")),
+        ],
+    ),
 }
